@@ -311,6 +311,18 @@ def gen_gate_case(rng, quick):
     args = method_args(rng, m)
     seed = rng.choice([0, 1, 5, 2 ** 32 - 1, rng.randrange(2 ** 32)])
     ev = []
+    # "off" values in the request itself: some of its error probabilities / T1 / T2 are exactly 0 while the history sampled the same pulses with
+    # every channel on (on the same gate-set object, same angles and durations) -- nothing of the earlier request may survive in the later one
+    if rng.random() < 0.35:
+        first = {"X": 1, "SX": 1, "single_qubit_gate": 2, "CR": 3, "relaxation": 1, "bitflip": 1, "depolarizing": 1}.get(m, 3)
+        full = tuple(args)
+        a0 = list(args)
+        for i in rng.sample(range(first, len(a0)), rng.randint(1, len(a0) - first)):
+            a0[i] = 0 if rng.random() < 0.5 else 0.0
+        args = tuple(a0)
+        ev.append(["call", 0, m, full])
+        if rng.random() < 0.5:
+            m2, a2 = perturb(rng, m, full, "noise"); ev.append(["call", 0, m2, a2])
     for _ in range(rng.randint(2, 7)):
         r = rng.random()
         if r < 0.30:
